@@ -190,10 +190,15 @@ def check_names(x, label):
     o = x.optimize()
     if x.name != name0:
         bad.append(("name-changed", f"{label}: after optimize() {name0} -> {x.name}"))
-    x.compute(scheduler="sync")
+    try:
+        x.compute(scheduler="sync")
+        p = x.persist(scheduler="sync")
+    except Exception as e:
+        # a task raising at run time is not a statement about the graph's structure (C01/C11)
+        STATS["compute_raised_" + type(e).__name__] = STATS.get("compute_raised_" + type(e).__name__, 0) + 1
+        return bad, o, None
     if x.name != name0:
         bad.append(("name-changed", f"{label}: after compute {name0} -> {x.name}"))
-    p = x.persist(scheduler="sync")
     if x.name != name0 or p.name != name0:
         bad.append(("name-changed", f"{label}: persist {name0} -> x:{x.name} persisted:{p.name}"))
     if list(flatten(x.__dask_keys__())) != keys0 or list(flatten(p.__dask_keys__())) != keys0:
@@ -243,9 +248,14 @@ def run_case(ctx, case, count=True):
         for r, z in zip(case["roots"], case.get("zoo") or [None] * len(case["roots"])):
             x = env[r]
             label = r if not z else f"{z}({r})"
-            try:
-                if z:
+            if z:
+                try:
                     x = ZOO[z](da, x)
+                except Exception:
+                    # construction-time refusal/defect of a zoo op (e.g. ravel of a zero-size array): not a graph
+                    ctx.notes["zoo_construction_raised"] = ctx.notes.get("zoo_construction_raised", 0) + 1
+                    continue
+            try:
                 bad, nl, nt = check_array(x, label)
                 fails += bad
                 if count:
@@ -257,6 +267,8 @@ def run_case(ctx, case, count=True):
                     bad, o, p = check_names(x, label)
                     fails += bad
                     for y, lab in ((o, f"optimize({label})"), (p, f"persist({label})")):
+                        if y is None:
+                            continue
                         b2, nl, nt = check_array(y, lab)
                         fails += b2
                         if count:
@@ -335,7 +347,7 @@ def run(ctx, replay=None):
     correspondence(ctx)
 
     # ---- search + contract monitoring
-    n = ctx.scale(110, 1500)
+    n = ctx.scale(400, 6000)
     budget = ctx.scale(40, 480)
     zoo_names = sorted(ZOO)
     for it in range(n):
@@ -402,7 +414,7 @@ def correspondence(ctx):
                 a = "R" if k[0] == y.name else "?"
                 b = "O" if tgt[0] == m.array._name else "?"
                 items.append(f"{a}{','.join(map(str, k[1:]))}>{b}{','.join(map(str, tgt[1:]))}")
-            impl = "ok alias " + ";".join(sorted(items))
+            impl = "ok alias " + ";".join(items)
             inner = "0"
         else:
             impl = "ok same"
